@@ -132,6 +132,8 @@ class Impl(object):
         self.delivered_ids = set()
         self.cur_op = None
         self.died = False
+        self.take_fn = lambda: self.irc.takeMsg()
+        self.last_taken = None
 
     # ---- helpers
     def ser(self, m):
@@ -341,7 +343,8 @@ class Impl(object):
         del self.chain[:]
         now = self.clk.t
         th, jl = self.cfg[0], self.cfg[1]
-        r = irc.takeMsg()
+        r = self.take_fn()
+        self.last_taken = r
         chain = [list(e) for e in self.chain]
         ret = 'N' if r is None else 'M' + self.ser(r)
         parts = []
@@ -442,6 +445,102 @@ class Impl(object):
         if 'd' in self.drv:
             self.tags.add('zombie-killed')
         return ret, ';'.join(parts) or '-'
+
+
+_rig = None
+def rig():
+    """the C11 rig: the real SocketDriver over a fake socket (once per process)"""
+    global _rig
+    if _rig is None:
+        import c11
+        _rig = c11.Rig()
+    return _rig
+
+
+class DriverImpl(Impl):
+    """the same Irc, but driven by the real drivers.Socket.SocketDriver (fake socket): `drun` is one
+    drivers.run(); every Irc.takeMsg call the driver makes is observed like a `take` operation, and the
+    bytes on the sockets are checked against what takeMsg returned, connection by connection"""
+    def new(self, t):
+        R = rig()
+        self.clk.t = t
+        self.apply_cfg()
+        self.chain = []
+        self.cbs = make_callbacks(self.b, self.rules, self.chain)
+        self.irc = self.b.irclib.Irc('test', callbacks=self.cbs)
+        d, stub, fs, st = R.fresh(irc=self.irc)
+        self.driver = d
+        self.epochs = [[]]          # str() of the messages takeMsg returned, per connection
+        real_take = self.irc.takeMsg
+        self._real_take = real_take
+        self.take_fn = real_take
+        real_die, real_reconnect = d.die, d.reconnect
+        def die():
+            self.on_driver_die(); return real_die()
+        def reconnect(*a, **k):
+            self.on_driver_reconnect()
+            self.epochs.append([])
+            return real_reconnect(*a, **k)
+        d.die = die; d.reconnect = reconnect
+        self.irc.takeMsg = self.driver_take
+        for m in self.pending():
+            self.note_accept(m)
+
+    def driver_take(self):
+        if getattr(self, '_in_take', False):
+            # `return self.takeMsg()` inside takeMsg (an outFilter returned None): part of the same call
+            return self._real_take()
+        self._in_take = True
+        try:
+            return self._driver_take()
+        finally:
+            self._in_take = False
+
+    def _driver_take(self):
+        self.drv = []; self.disc = None
+        before = collections.Counter(id(m) for m in self.pending())
+        bq = self.queues()
+        self.ac_before = self.irc.afterConnect
+        zb = self.irc.zombie
+        ep = len(self.epochs) - 1
+        ret, chain_s = self.do_take(before, bq, zb)
+        disc_s = '~' if self.disc is None else self.sers(self.disc)
+        self.drun_obs.append('%s\t%s\t%s\t%s\t%s' % (ret, ''.join(self.drv) or '-', chain_s, disc_s, self.state()))
+        if self.last_taken is not None:
+            self.epochs[ep].append(str(self.last_taken).encode('utf-8', 'replace'))
+        return self.last_taken
+
+    def drun(self):
+        self.opi += 1
+        self.cur_op = 'take'
+        self.drun_obs = []
+        rig().drivers.run()
+        self.tags.add('driver-run-%d-takes' % min(len(self.drun_obs), 3))
+        return list(self.drun_obs)
+
+    def check_bytes(self):
+        socks = rig().socks
+        for k, s in enumerate(socks):
+            if k >= len(self.epochs):
+                break
+            want = self.epochs[k]
+            sent = bytes(s.sent)
+            ok = False
+            for j in range(len(want) + 1):
+                if b''.join(want[:j]) == sent:
+                    ok = True; last = (j == len(want))
+                    break
+            if not ok:
+                self.fail('connection %d: the socket received %r, which is not a prefix (by whole messages) of what takeMsg '
+                          'returned on that connection %r' % (k, sent[:120], b''.join(want)[:120]))
+            elif not last and k == len(socks) - 1 and not self.driver.outbuffer and self.driver.connected and not self.irc.zombie:
+                self.fail('connection %d: %d message(s) returned by takeMsg never reached the socket' % (k, len(want) - j))
+            if k > 0 and sent and not sent.startswith(b'CAP LS'):
+                self.fail('connection %d starts with %r, not with the registration (CAP LS ...)' % (k, sent[:60]))
+            if k > 0: self.tags.add('driver-reconnected')
+
+    def close(self):
+        Impl.close(self)
 
 
 # ------------------------------------------------------------------------------------------
@@ -615,28 +714,42 @@ def drained_check(im, ops):
 
 def run_case(ops, kind):
     """run on the implementation; returns (Case, model driver lines, visibility mask)"""
-    im = Impl()
+    with_driver = any(op[0] == 'drun' for op in ops)
+    im = DriverImpl() if with_driver else Impl()
     obs = []
     connect = []
+    expanded = []
     try:
         for op in ops:
+            if with_driver and im.died:
+                im.tags.add('driver-gone')       # the real driver left the loop: nothing calls the Irc any more
+                break
             if op[0] == 'drained':
                 drained_check(im, ops)
                 continue
+            if op[0] == 'drun':
+                lines_ = im.drun()
+                obs.extend(lines_)
+                expanded.extend([['take']] * len(lines_))
+                continue
+            expanded.append(op)
             o = im.do(op)
             if op[0] == 'new':
                 connect = [im.ser(m) for m in im.pending()]
             if o is not None:
                 obs.append(o)
+        if with_driver:
+            im.check_bytes()
     finally:
         im.close()
-    real_ops = [op for op in ops if op[0] != 'drained']
+    real_ops = expanded
     nonfinding = [f for f in im.fails if f[2] is None]
     finding = None
     ok = True; msg = ''
     if nonfinding:
         ok = False
-        msg = 'op #%d %r: %s' % (nonfinding[0][0], real_ops[nonfinding[0][0]] if nonfinding[0][0] < len(real_ops) else None, nonfinding[0][1])
+        plain_ops = [op for op in ops if op[0] != 'drained']
+        msg = 'op #%d %r: %s' % (nonfinding[0][0], plain_ops[nonfinding[0][0]] if nonfinding[0][0] < len(plain_ops) else None, nonfinding[0][1])
     elif im.fails:
         ok = False; finding = im.fails[0][2]
         msg = 'op #%d: %s' % (im.fails[0][0], im.fails[0][1])
@@ -645,7 +758,7 @@ def run_case(ops, kind):
     return c, model_lines(real_ops, connect), visible(real_ops)
 
 
-def explore(seed_stream, n, n_reuse, maxlen, corpus=(), budget=80.0):
+def explore(seed_stream, n, n_reuse, maxlen, corpus=(), budget=80.0, n_driver=0):
     r = rng.make(seed_stream)
     cases = []; lines = []; spans = []
     def add(ops, kind):
@@ -656,6 +769,10 @@ def explore(seed_stream, n, n_reuse, maxlen, corpus=(), budget=80.0):
     for ops in corpus:
         add(ops, 'corpus')
     t0 = time.time()
+    rd = rng.make(seed_stream + '-driver')
+    for i in range(n_driver):
+        ops = gen_ops(rd, maxlen)
+        add([(['drun'] if op[0] == 'take' else op) for op in ops], 'driver')
     for i in range(n + n_reuse):
         add(gen_ops(r, maxlen, reuse=(i % (n // max(1, n_reuse) + 1) == 0)), 'gen')
         if time.time() - t0 > budget or len([c for c in cases[-200:] if c.oracle_ok is False and c.finding is None]) >= 25:
@@ -743,7 +860,8 @@ def run(ctx):
         n, n_reuse, maxlen = 45000, 2500, 90
     else:
         n, n_reuse, maxlen = 5200, 300, 60
-    cases, lines, spans = explore('c19', n, n_reuse, maxlen, load_corpus(), budget=(840.0 if ctx.thorough else 75.0))
+    cases, lines, spans = explore('c19', n, n_reuse, maxlen, load_corpus(), budget=(840.0 if ctx.thorough else 75.0),
+                                  n_driver=(6000 if ctx.thorough else 500))
     status, wcase = reuse_witness_status()
     if build.driver_ok:
         fill_model(cases, lines, spans)
